@@ -49,12 +49,16 @@ def _install(w, pool, size):
     return idle_check
 
 
-def tpl_two(size, n1, n2, r1, t, _twin=False):
+def tpl_two(size, n1, n2, r1, t, other=0, _twin=False):
     """Two competing apply requests (the second placed after t iterations), one release of an arbitrary worker."""
     w = World("c01.two")
     code = 0
     try:
         pool = _mkpool(size, False, w)
+        if other == 1:
+            # another pool of a different size lives in the same loop (created later, idle): pools are independent
+            neighbour = TaskPool(pool_size=(5 if size == -1 else size + 3))
+            w.op("neighbour-pool")
         it = Interp(w, pool, cbkind=1)
         idle_check = _install(w, pool, size)
         try:
@@ -151,10 +155,10 @@ def families(tier):
     na, ns = len(ALPHA), len(ALPHA_S)
     P = ["size", "x1", "x2", "a2", "s2", "x3", "a3", "x4", "a4", "t"]
     fams = [Family(
-        name="two", fn="tpl_two", params=["size", "n1", "n2", "r1", "t"],
-        pre=["size >= -1", "0 <= n1 <= 3", "0 <= n2 <= 3", "r1 >= 0", "t >= 0"],
+        name="two", fn="tpl_two", params=["size", "n1", "n2", "r1", "t", "other"],
+        pre=["size >= -1", "0 <= n1 <= 3", "0 <= n2 <= 3", "r1 >= 0", "t >= 0", "0 <= other <= 1", "other == 0 or (n1 == 3 and t >= 4)"],
         parts=parts_product(n1=range(4), n2=range(4)),
-        twin_args=[2, 2, 2, 0, 0],
+        twin_args=[2, 2, 2, 0, 0, 0],
     )]
     fams.append(Family(
         name="slowcb", fn="tpl_slowcb", params=["size", "x1", "a2", "x3", "a3"],
